@@ -19,6 +19,7 @@ from vmon import core, gen, contracts
 from vmon import refmodel as rm
 from vmon.props.C06 import with_work, same_bits, unit_quats
 
+ANCHORS = ['evo/tools/file_interface.py', 'evo/core/trajectory.py']
 LEVEL = "exploration"
 SHARDS = {"quick": 8, "thorough": 16}
 RULE = ("well-formed TUM/KITTI/EuRoC/transform files built by an own writer (1..60 rows, '#' "
